@@ -62,21 +62,47 @@ fn load(v: &serde_json::Value) -> Loaded {
       handles.insert(m, s);
     }
   }
-  let entries = v["entry"]
+  let mut entries: Vec<ModuleReference> = v["entry"]
     .as_array()
     .map(|a| a.iter().filter_map(|e| e.as_str()).filter_map(|e| by_name.get(e).copied()).collect())
     .unwrap_or_default();
+  // an entry point that is not among the sources ("Invalid entry point: .. does not exist.")
+  if let Some(name) = v["missing_entry"].as_str() {
+    let parts: Vec<String> = name.split('.').map(|s| s.to_string()).collect();
+    entries.push(heap.alloc_module_reference_from_string_vec(parts));
+  }
   Loaded { heap, handles, entries }
 }
 
 /// The same stages `samlang_compiler::compile_sources` runs (crates/samlang-compiler/src/lib.rs:38-83),
 /// through the crates' public stage functions, so that the intermediate MIR can be dumped.
-fn staged(v: &serde_json::Value) -> Result<(String, String, String), String> {
+/// next temp number the heap would hand out (`str_pointer_table.len()`), read without side effect:
+/// a fresh counter starts there and its first name is `_t<that number>`.
+fn heap_len(heap: &Heap) -> u64 {
+  let name = heap.create_temp_counter().alloc_temp_str();
+  heap.verif_counter_log.lock().unwrap().pop(); // this probe is not part of the compiler's discipline
+  name.as_str(heap)[2..].parse().unwrap_or(0)
+}
+
+struct Staged {
+  mir0: String,
+  mir1: String,
+  ts: String,
+  /// heap length after lowering to MIR, after `optimize_sources`, after `compile_mir_to_lir`
+  heap_lens: [u64; 3],
+  /// the sync discipline as logged by the heap hook: `c<start>@<n>` / `s<value>@<n>`, n = number of
+  /// heap calls logged before the event; plus the positions of the sequential `alloc_temp_str` calls
+  counter_log: String,
+}
+
+fn staged(v: &serde_json::Value) -> Result<Staged, String> {
   let Loaded { mut heap, handles, entries: _ } = load(v);
   let heap = &mut heap;
   let mut error_set = samlang_errors::ErrorSet::new();
   let mut parsed = HashMap::new();
-  for (m, s) in &handles {
+  let mut ordered = handles.iter().collect::<Vec<_>>();
+  ordered.sort_by_cached_key(|(m, _)| m.pretty_print(heap));
+  for (m, s) in ordered {
     parsed.insert(*m, samlang_parser::parse_source_module_from_text(s, *m, heap, &mut error_set));
   }
   let checked = samlang_checker::type_check_sources(&parsed, &mut error_set).0;
@@ -85,15 +111,42 @@ fn staged(v: &serde_json::Value) -> Result<(String, String, String), String> {
   }
   let mir0 = samlang_compiler::compile_sources_to_mir(heap, &checked);
   let mir0_text = mir0.debug_print(heap);
+  let h0 = heap_len(heap);
+  heap.verif_log.clear();
+  heap.verif_counter_log.lock().unwrap().clear();
   let mir1 = samlang_optimization::optimize_sources(
     heap,
     mir0,
     &samlang_optimization::ALL_ENABLED_CONFIGURATION,
   );
   let mir1_text = mir1.debug_print(heap);
+  let h1 = heap_len(heap);
   let lir = samlang_compiler::compile_mir_to_lir(heap, mir1);
+  let h2 = heap_len(heap);
   let ts = lir.pretty_print(heap);
-  Ok((mir0_text, mir1_text, ts))
+  // sync discipline: counter events and the positions of the sequential alloc_temp_str calls
+  let temps: Vec<usize> = heap
+    .verif_log
+    .iter()
+    .enumerate()
+    .filter(|(_, c)| matches!(c, samlang_heap::verif_hooks::HeapCall::AllocTemp))
+    .map(|(i, _)| i)
+    .collect();
+  let mut events: Vec<(usize, String)> = heap
+    .verif_counter_log
+    .lock()
+    .unwrap()
+    .iter()
+    .map(|(k, n, at)| (*at, format!("{k}{n}")))
+    .collect();
+  for (i, at) in temps.iter().enumerate() {
+    if i == 0 || temps[i - 1] + 1 != *at {
+      events.push((*at, "t".to_string()));
+    }
+  }
+  events.sort_by_key(|(at, _)| *at);
+  let counter_log = events.into_iter().map(|(_, e)| e).collect::<Vec<_>>().join(",");
+  Ok(Staged { mir0: mir0_text, mir1: mir1_text, ts, heap_lens: [h0, h1, h2], counter_log })
 }
 
 fn one(line: &str, idx: usize) -> serde_json::Value {
@@ -147,10 +200,12 @@ fn one(line: &str, idx: usize) -> serde_json::Value {
   if want_mir && out["verdict"] == "ok" {
     let vv = v.clone();
     match std::panic::catch_unwind(move || staged(&vv)) {
-      Ok(Ok((m0, m1, ts))) => {
-        out["mir0"] = m0.into();
-        out["mir1"] = m1.into();
-        out["lir_ts"] = ts.into();
+      Ok(Ok(st)) => {
+        out["mir0"] = st.mir0.into();
+        out["mir1"] = st.mir1.into();
+        out["lir_ts"] = st.ts.into();
+        out["heap_lens"] = serde_json::json!(st.heap_lens);
+        out["counter_log"] = st.counter_log.into();
       }
       Ok(Err(diag)) => {
         out["staged"] = format!("errors:{diag}").into();
@@ -234,6 +289,25 @@ fn errset_line(line: &str) -> String {
             let v: Vec<PStr> = atoms.iter().map(|a| pstr_of(&mut heap, a)).collect();
             local.report_missing_class_member_definition_error(loc, v)
           }
+          16 => {
+            // NotAnEnum { description }: atoms spell a Description chain in derived-Ord order:
+            // n1 = BoolType, n2 = IntType, n12 p = Class(p), n13 p [rest] = NominalType{p, [rest]}
+            fn descr(heap: &mut Heap, atoms: &[&str], pstr_of: &dyn Fn(&mut Heap, &str) -> PStr) -> samlang_ast::Description {
+              use samlang_ast::Description as D;
+              match atoms[0] {
+                "n1" => D::BoolType,
+                "n2" => D::IntType,
+                "n12" => D::Class(pstr_of(heap, atoms[1])),
+                _ => {
+                  let name = pstr_of(heap, atoms[1]);
+                  let type_args = if atoms.len() > 2 { vec![descr(heap, &atoms[2..], pstr_of)] } else { vec![] };
+                  D::NominalType { name, type_args }
+                }
+              }
+            }
+            let d = descr(&mut heap, &atoms, &pstr_of);
+            local.report_not_an_enum_error(loc, d)
+          }
           14 => local.report_non_exhaustive_tuple_binding_error(
             loc,
             atoms[0][1..].parse().unwrap(),
@@ -251,11 +325,43 @@ fn errset_line(line: &str) -> String {
     // the report `compile_sources` renders: module by module in module-name order; answer = the
     // location headers of the blocks in order, e.g. `M1.sam:2:3-2:5,M2.sam:1:1-1:2`
     let text = global.pretty_print_error_messages_in_module_name_order(&heap, &HashMap::new());
-    let heads: Vec<String> = text
-      .lines()
-      .filter(|l| l.starts_with("Error -"))
-      .map(|l| l.rsplit(' ').next().unwrap_or("").to_string())
-      .collect();
+    // per block: `<header location>#<rank of the ErrorDetail kind>[#<name>]` (the name for
+    // `Cannot resolve name`), so that errors tying on the location stay distinguishable
+    let lines: Vec<&str> = text.lines().collect();
+    let mut heads: Vec<String> = Vec::new();
+    for (i, l) in lines.iter().enumerate() {
+      if !l.starts_with("Error -") {
+        continue;
+      }
+      let loc = l.rsplit(' ').next().unwrap_or("").to_string();
+      let msg = lines[i + 1..].iter().find(|x| !x.trim().is_empty()).copied().unwrap_or("");
+      let tag = if let Some(rest) = msg.strip_prefix("Cannot resolve name `") {
+        let name = rest.trim_end_matches("`.");
+        match name.strip_prefix("LongHeapStringName") {
+          Some(k) => format!("3#h{}", k.parse::<usize>().unwrap_or(0)),
+          None => format!("3#i{}", samverif_harness::util::hex(name.as_bytes())),
+        }
+      } else if msg.starts_with("Cannot resolve class") {
+        "0".to_string()
+      } else if msg.starts_with("Cannot resolve module") {
+        "2".to_string()
+      } else if msg.starts_with("Function declarations are not allowed") {
+        "6".to_string()
+      } else if msg.starts_with("The following members must be implemented") {
+        "10".to_string()
+      } else if msg.starts_with("The pattern does not bind") || msg.contains("tuple") {
+        "14".to_string()
+      } else if msg.ends_with("is not an instance of an enum class.") {
+        "16".to_string()
+      } else if msg.starts_with("There is not enough context") {
+        "21".to_string()
+      } else if msg.starts_with("The pattern is") || msg.contains("useless") || msg.contains("irrefutable") {
+        "22".to_string()
+      } else {
+        "9".to_string()
+      };
+      heads.push(format!("{loc}#{tag}"));
+    }
     return if heads.is_empty() { "-".to_string() } else { heads.join(",") };
   }
   let show_pstr = |p: &PStr| -> String {
@@ -282,6 +388,30 @@ fn errset_line(line: &str) -> String {
       }
       ErrorDetail::NonExhaustiveTupleBinding { expected_count, actual_count } => {
         (14, vec![format!("n{expected_count}"), format!("n{actual_count}")])
+      }
+      ErrorDetail::NotAnEnum { description } => {
+        fn flat(d: &samlang_ast::Description, show: &dyn Fn(&PStr) -> String, out: &mut Vec<String>) {
+          use samlang_ast::Description as D;
+          match d {
+            D::BoolType => out.push("n1".to_string()),
+            D::IntType => out.push("n2".to_string()),
+            D::Class(p) => {
+              out.push("n12".to_string());
+              out.push(show(p));
+            }
+            D::NominalType { name, type_args } => {
+              out.push("n13".to_string());
+              out.push(show(name));
+              for t in type_args {
+                flat(t, show, out);
+              }
+            }
+            _ => out.push("n99".to_string()),
+          }
+        }
+        let mut v = Vec::new();
+        flat(description, &show_pstr, &mut v);
+        (16, v)
       }
       ErrorDetail::Underconstrained => (21, vec![]),
       ErrorDetail::UselessPattern { only_pattern } => (22, vec![format!("n{}", *only_pattern as u8)]),
